@@ -31,16 +31,24 @@ def plan(prop, tier, seed, t0):
     A = ("AStartAnneal", "AAnnealStep")
     # q: exact neighbour order, E3 P3 P4 C4 Star4 E4;  aq: annealer loop, order-normalised, P3 P4 C4 Star4
     mcs = [dict(name="tree", cfg="MC_RankTree_q.cfg", timeout=3000, actions=MOVES, **M),
-           dict(name="anneal", cfg="MC_RankTree_aq.cfg", timeout=3000, actions=A, **M)]
+           dict(name="anneal", cfg="MC_RankTree_aq.cfg", timeout=3000, actions=A, **M),
+           # d: the direct calls of the --api histories on the specification (swap_subtrees for ANY two disjoint subtrees, move_subtree
+           # for any path >= 4 with total / selective clearing, sort_nhds, compute_ranks), order-normalised, + InvQueries
+           dict(name="direct", cfg="MC_RankTree_d.cfg", timeout=3000, actions=("ASwapDirect", "AMoveDirect", "ASortNhds"), **M)]
     if not q:
         # t: order-normalised C5 K4P P5;  a: annealer loop exact on P3 C4;  a5: annealer loop normalised up to C5 K4P
         mcs += [dict(name="tree5", cfg="MC_RankTree_t.cfg", timeout=3000, actions=MOVES, **M),
                 dict(name="anneal_exact", cfg="MC_RankTree_a.cfg", timeout=3000, **M),
-                dict(name="anneal5", cfg="MC_RankTree_a5.cfg", timeout=3000, **M)]
+                dict(name="anneal5", cfg="MC_RankTree_a5.cfg", timeout=3000, **M),
+                dict(name="direct_exact", cfg="MC_RankTree_dx.cfg", timeout=3000, **M)]      # the same in the code's exact neighbour order
     T = dict(engine="ranktree", module="Trace_RankTree.tla", cfg="Trace_RankTree.cfg", shards=W)
     traces = [
-        dict(name="hist", args=["--fixed", "--histories", 250 if q else 4000, "--moves", 30 if q else 40], **T),
-        dict(name="anneal", args=["--fixed", "--anneal", 120 if q else 3000], **T),
+        # --api: direct swap_subtrees / move_subtree / set_rank / compute_ranks / partition / path / edges / sort_nhds calls with
+        # caller-chosen arguments, hand-built trees, set_init_decomp, rank_decomp (audit #16); every third group on hash_graph
+        dict(name="hist", args=["--fixed", "--histories", 250 if q else 4000, "--moves", 30 if q else 40, "--api", 100 if q else 1500], **T),
+        # --annealbig: short runs (10 / 20 / 50 iterations) on 14..32 vertices, where the accepted tree at the end of the run is
+        # often worse than the best one seen: AnnealNoWorse (returned tree no wider than the starting tree) is sharp there
+        dict(name="anneal", args=["--fixed", "--anneal", 120 if q else 3000, "--annealbig", 300 if q else 4000], **T),
     ]
     if not q:
         traces += [dict(name="long", args=["--histories", 250, "--moves", 250], **T),
@@ -53,7 +61,11 @@ def plan(prop, tier, seed, t0):
                     "graph + random_decomp + a seeded sequence of the real random moves interleaved with rankwidth()/rankwidth_score(), "
                     "or an annealer run (grid: iterations x temperatures/cooling x adaptive on/off x both constructors); the FULL node "
                     "array and cache are logged after every call and TLC evaluates ValidTree / CacheCoherent / WidthOK / AnnealValid / "
-                    "AnnealNoWorse with its own cut ranks; non-trivial = moves that changed the array, width queries that filled the "
+                    "AnnealNoWorse with its own cut ranks; direct calls (--api): swap_subtrees / move_subtree with caller-chosen valid "
+                    "arguments (validity of the arguments decided by the spec on the logged pre-state), set_rank / clear_rank / rank in both "
+                    "key orders, compute_ranks, partition / path / edges / num_edges judged by definition, sort_nhds, trees built with "
+                    "add_leaf / add_interior, annealer started through set_init_decomp (AnnealNoWorse against the installed tree), "
+                    "rankwidth::rank_decomp; graphs in vec_graph and hash_graph; non-trivial = moves that changed the array, width queries that filled the "
                     "cache, annealer runs with at least one iteration")
 
 
@@ -69,8 +81,10 @@ META = dict(
          "annealer runs (full node array and full cache after every call), with a refinement check (L1) that each logged post-state is a "
          "result of the transcribed move.",
     note="exhaustive: all graphs listed in the configs with 3-4 vertices in the code's exact neighbour order, 5-6 vertices modulo neighbour "
-         "order (random_local_swap's order-dependent choice of d over-approximated); traces: 2..8 (thorough: 12) vertices. The annealer's "
-         "floating-point acceptance is a coin in the spec; temperatures <= 0 are not exercised. Two recorded defects: panics on two-vertex "
+         "order (random_local_swap's order-dependent choice of d over-approximated); traces: 2..8 (thorough: 12) vertices, and short "
+         "annealer runs (10-50 iterations) on 14..32 vertices. The annealer's "
+         "floating-point acceptance is a coin in the spec; temperatures <= 0 are not exercised. Annealer getters and init_decomp() "
+         "read-back are compared as L1 drift only (ParamReadback). Two recorded defects: panics on two-vertex "
          "graphs (swap_random_leaves) and on edgeless graphs with adaptive cooling (NaN).")
 
 ENGINE = {"name": "ranktree",
